@@ -14,6 +14,7 @@ import (
 	"io"
 	"os"
 	"regexp"
+	"regexp/syntax"
 	"sort"
 	"strings"
 	"unicode/utf8"
@@ -297,6 +298,10 @@ func compile(patterns []string, mode Mode) (*regexp.Regexp, error) {
 						// that it is closed; otherwise "[" is ordinary
 						if n := class(pat[w:]); n > 0 {
 							w += n
+							if strings.HasPrefix(pat, "[:^") {
+								// regexp would read it as a negated class
+								return nil, &syntax.Error{Code: syntax.ErrInvalidCharRange, Expr: pat[:w]}
+							}
 							b.WriteString(pat[:w])
 						} else {
 							b.WriteString(`\[`)
